@@ -130,7 +130,14 @@ class ConcE:
         elif self.gen is not None:
             v = default_fn()
         else:
-            raise KeyError('replay input %s missing' % name)
+            # replay of a counter-model / witness that does not mention this input (the symbolic run never drew it, e.g. behind a contract):
+            # the model leaves it unconstrained, so any value will do - a fixed seeded one
+            self.gen = Gen(20260926)
+            try:
+                v = default_fn()
+            finally:
+                self.gen = None
+            self.defaulted = getattr(self, 'defaulted', set()) | {name}
         self.used[name] = v
         return v
 
